@@ -655,7 +655,9 @@ fn c03_got(c: &ServeCase, o: &ServeObs) -> Got {
             Got::Full
         }
         206 => {
-            if let Some(ct) = r.get("content-type").filter(|ct| ct.len() >= 10 && ct[..10].eq_ignore_ascii_case(b"multipart/")) {
+            // a multipart answer has no Content-Range of its own (an entity may itself be of a
+            // multipart type; a single-range 206 then carries that type *and* a Content-Range)
+            if let Some(ct) = r.get("content-type").filter(|ct| r.get("content-range").is_none() && ct.len() >= 20 && ct[..20].eq_ignore_ascii_case(b"multipart/byteranges")) {
                 let b = match multipart::boundary_of(ct) {
                     Some(b) => b,
                     None => return Got::Bad("multipart-without-boundary".into()),
@@ -981,6 +983,17 @@ impl Prop for C03 {
             if l % 3 == 1 {
                 ent.hdrs.push(("content-type".into(), b"text/plain".to_vec()));
             }
+            // every seventh request: one of the other entity header sets (repeated names, a
+            // stored Content-Encoding, a multipart type, a 4 KiB value)
+            let hh = hash64(&(value, l, 77u8));
+            if hh % 7 == 0 {
+                let sets = c06_hdr_sets();
+                ent.hdrs = sets[1 + (hh / 7) as usize % (sets.len() - 1)].clone();
+                if ent.hdrs.iter().map(|(k, v)| k.len() + v.len()).sum::<usize>() > 1000 && l < 100_000 {
+                    ent.hdrs.truncate(0);
+                    ent.hdrs.push(("content-encoding".into(), b"br".to_vec()));
+                }
+            }
             let mut c = ServeCase::get(ent);
             c.cap = 1 << 14;
             c.extra_polls = 0;
@@ -1150,7 +1163,10 @@ fn c04_judge(c: &ServeCase, o: &ServeObs, sink: &mut Sink) -> (Verdict, Option<u
         cond::Outcome::Continue => {
             // processing continues to range selection
             match c.hdr("range") {
-                Some(b"bytes=0-0") | Some(b"bytes=2-3") | Some(b"bytes=0-1, 4-5") if c.ent.len > 5 && c.hdr("if-range").is_none() => r.status == 206,
+                Some(b"bytes=0-0") | Some(b"bytes=2-3") if c.ent.len > 5 && c.hdr("if-range").is_none() => r.status == 206,
+                // two ranges on a 10-byte entity: not smaller than the entity as multipart, so the
+                // whole entity (200) is as good an answer as a 206
+                Some(b"bytes=0-1, 4-5") if c.hdr("if-range").is_none() => r.status == 200 || r.status == 206,
                 Some(b"bytes=100-") if c.ent.len <= 100 && c.hdr("if-range").is_none() => r.status == 416,
                 _ => r.status == 200 || r.status == 206 || r.status == 416,
             }
@@ -1888,11 +1904,15 @@ pub fn c07_judge(c: &ServeCase, o: &ServeObs, sink: &mut Sink) -> (Verdict, Opti
     let stream_len = fe - fs;
     let kind = format!("{:?}", f.kind);
     let shape = if r.get("content-type").is_some_and(|t| t.starts_with(b"multipart/")) { format!("multipart-part{}", f.call) } else { r.status.to_string() };
+    if f.kind == FaultKind::Panic {
+        return (Verdict::DontCare("panicking entity stream (explored by C20 only)".into()), None);
+    }
     if let Terminal::Panic(p) = &d.terminal {
         return (Verdict::viol(format!("{}|{}|panic", kind, shape), format!("draining panicked: {}", p)), None);
     }
     let announced = r.get_u64("content-length").unwrap_or(o.init_hint.0);
     match f.kind {
+        FaultKind::Panic => unreachable!(),
         FaultKind::EarlyEnd | FaultKind::Err => {
             if f.kind == FaultKind::EarlyEnd && f.at >= stream_len {
                 return (Verdict::DontCare("early end at the very end is no fault".into()), None);
@@ -2096,6 +2116,26 @@ pub fn long_fault_cases(slow: bool) -> Vec<ServeCase> {
     out
 }
 
+/// Entities of length 0 whose stream misbehaves all the same (the tuple enumeration starts at
+/// one byte).
+pub fn empty_entity_fault_cases() -> Vec<ServeCase> {
+    let mut out = Vec::new();
+    for sizes in [vec![], vec![Sz::Abs(0)], vec![Sz::Abs(0), Sz::Abs(0), Sz::Abs(0)], vec![Sz::Abs(2)]] {
+        for (kind, at) in [(FaultKind::Err, 0u64), (FaultKind::ExtraByte, 0), (FaultKind::ExtraChunk, 0), (FaultKind::Overrun, 1), (FaultKind::Overrun, 3)] {
+            for pend in [false, true] {
+                for hint_exact in [false, true] {
+                    let plan = ChunkPlan { sizes: sizes.clone(), pend_mask: if pend { 0b1 } else { 0 }, pend_period: if pend { 2 } else { 0 }, hint_exact };
+                    let ent = EntSpec { len: 0, etag: None, mtime: None, hdrs: vec![("content-type".into(), b"x/y".to_vec())], plan, fault: Some(Fault { call: 0, at, kind: kind.clone(), shrunk_len: None }), slow_calls: false, content_mode: 0 };
+                    let mut c = ServeCase::get(ent);
+                    c.extra_polls = 3;
+                    out.push(c);
+                }
+            }
+        }
+    }
+    out
+}
+
 impl Prop for C07 {
     fn id(&self) -> &'static str {
         "C07"
@@ -2104,7 +2144,7 @@ impl Prop for C07 {
         "fault_enumeration"
     }
     fn rule(&self, _: &Ctx) -> String {
-        "exhaustive: every entity stream of 1..4 chunks (1..5 in the thorough tier) with chunk lengths 0..3 x fault {early end, Err, one extra byte inside a chunk, one extra chunk} at every byte offset x response shape {200, single 206, multipart of 2 and 3 parts with the fault in each part} x {plain, Pending polls before the fault, stream with an exact size_hint, runs of 40 empty chunks, an entity whose own len() has shrunk to where the stream ends, a matching If-Range on the request}; plus the same fault kinds late in bodies of 64 KiB .. 200 KB delivered in chunks of 5 .. 4096 bytes. Non-trivial = distinct case in which the faulty stream was actually requested and the terminal event / delivered byte count was compared with the rule".into()
+        "exhaustive: every entity stream of 1..4 chunks (1..5 in the thorough tier) with chunk lengths 0..3 x fault {early end, Err, one extra byte inside a chunk, one extra chunk} at every byte offset x response shape {200, single 206, multipart of 2 and 3 parts with the fault in each part} x {plain, Pending polls before the fault, stream with an exact size_hint, runs of 40 empty chunks, an entity whose own len() has shrunk to where the stream ends, a matching If-Range on the request}; plus the same fault kinds late in bodies of 64 KiB .. 200 KB delivered in chunks of 5 .. 4096 bytes, and in the stream of a zero-length entity. Non-trivial = distinct case in which the faulty stream was actually requested and the terminal event / delivered byte count was compared with the rule".into()
     }
     fn n_blocks(&self, ctx: &Ctx) -> usize {
         if ctx.leg.slow() { 40 } else if thorough(ctx) { c07_tuples_upto(5).len() } else { c07_tuples().len() }
@@ -2126,6 +2166,10 @@ impl Prop for C07 {
             for c in long_fault_cases(slow) {
                 exec(&c, sink, &c07_judge);
                 sink.count("long_body_fault_cases");
+            }
+            for c in empty_entity_fault_cases() {
+                exec(&c, sink, &c07_judge);
+                sink.count("empty_entity_fault_cases");
             }
         }
     }
@@ -2269,6 +2313,18 @@ pub fn c13_value(name: &str, len: u64, rng: &mut Rng) -> Vec<u8> {
             let cut2 = if w.is_empty() { 0 } else { rng.below(w.len() as u64) as usize };
             v.extend_from_slice(&w[cut2..]);
         }
+        7 if rng.chance(1, 2) => {
+            // long values: runs of obs-text bytes, multi-byte UTF-8, quotes, digits - up to several KiB
+            let n = *rng.pick(&[60usize, 86, 100, 127, 128, 129, 255, 256, 257, 300, 1000, 4096, 9000]);
+            let units: [&[u8]; 8] = [b"\xe9", b"\xc3\xa9", b"\xe2\x82\xac", b"\xf0\x9f\x98\x80", b"\"", b"9", b"a\xe9", b", \"x\xff\""];
+            let leads: [&[u8]; 6] = [b"", b"a", b"\"", b"W/\"", b"bytes=", b"bytes=0-1,"];
+            let unit: &[u8] = *rng.pick(&units);
+            let lead: &[u8] = *rng.pick(&leads);
+            v = lead.to_vec();
+            while v.len() < n {
+                v.extend_from_slice(unit);
+            }
+        }
         7 => {
             // arbitrary bytes that HeaderValue accepts: HTAB, 0x20..0x7e, 0x80..0xff
             let n = rng.below(24) as usize;
@@ -2341,7 +2397,7 @@ impl Prop for C13 {
         "exploration"
     }
     fn rule(&self, _: &Ctx) -> String {
-        "seeded random requests: method from 14 standard/extension tokens; 0..4 of the six request headers, each 1..3 times, values = grammar-derived (C03-C05 generators), their byte mutations (drop/duplicate/insert from '\"-,=*W/;\\t +0-9', splices), boundary numbers (2^63-1 .. 10^30), arbitrary HeaderValue bytes incl. 0x80-0xFF; entity length {0,1,10,240,1000,2^32,2^63,2^64-1} x ETag/mtime presence; plus the deterministic product method x single hostile header, and Range values with 21 .. 5000 specs in seven layouts (disjoint, chained overlaps, descending, identical, nested, shuffled chains, pseudo-random overlaps). Non-trivial = distinct (method, headers, entity shape) with a header or a non-GET method, for which no panic, an allowed status and (non-GET/HEAD) 405+Allow+no entity read were checked".into()
+        "seeded random requests: method from 14 standard/extension tokens; 0..4 of the six request headers, each 1..3 times, values = grammar-derived (C03-C05 generators), their byte mutations (drop/duplicate/insert from '\"-,=*W/;\\t +0-9', splices), boundary numbers (2^63-1 .. 10^30), arbitrary HeaderValue bytes incl. 0x80-0xFF, values of 60 .. 9000 bytes made of obs-text / multi-byte UTF-8 / quotes; entity length {0,1,10,240,1000,2^32,2^63,2^64-1} x ETag/mtime presence; plus the deterministic product method x single hostile header, and Range values with 21 .. 5000 specs in seven layouts (disjoint, chained overlaps, descending, identical, nested, shuffled chains, pseudo-random overlaps). Non-trivial = distinct (method, headers, entity shape) with a header or a non-GET method, for which no panic, an allowed status and (non-GET/HEAD) 405+Allow+no entity read were checked".into()
     }
     fn n_blocks(&self, ctx: &Ctx) -> usize {
         if ctx.leg.slow() { 16 } else { 256 }
